@@ -211,7 +211,7 @@ def try_error_blocks(body, region=None):
     for b, t in body.calls():
         if region is not None and b not in region:
             continue
-        if not mir.callee_path(t).endswith("Try::branch"):
+        if not (t.get("cpath") or "").endswith("Try::branch"):
             continue
         nb = t.get("t")
         if nb is None:
@@ -224,3 +224,28 @@ def try_error_blocks(body, region=None):
             if val == 1:
                 out |= body.reachable(tgt)
     return out
+
+
+def origin_root_adt(body, o):
+    """ADT id of the root local of a field-chain origin (param or local), else None."""
+    while o[0] in ("field", "downcast", "deref", "ref", "index", "clone", "cast"):
+        o = o[1]
+    if o[0] == "param":
+        return body.locals[o[1] + 1].get("adt")
+    if o[0] == "local":
+        return body.locals[o[1]].get("adt")
+    return None
+
+
+def receiver_field_of(pv, body, t, owner_suffix):
+    """Field name when the receiver of t is `<owner>.field` (directly, through refs)."""
+    if not t["args"]:
+        return None
+    o = mir.strip_refs(pv.of_operand(t["args"][0]))
+    if o[0] != "field":
+        return None
+    base = mir.strip_refs(o[1])
+    adt = origin_root_adt(body, base) if base[0] in ("param", "local") else None
+    if adt is None or not adt.endswith(owner_suffix):
+        return None
+    return o[2]
